@@ -370,8 +370,18 @@ def cli_rules(ctx):
 
         def chk(fname_, want, mode):
             got = writes.get(fname_)
-            ok = got is not None and _plus_to_cat(got[0]) == want and got[1] == Const(mode) \
-                and any(s == App("idx", (P("kwargs"), Const("output_dir"))) for s in subterms(got[2]))
+            OUT = App("idx", (P("kwargs"), Const("output_dir")))
+            in_dir = False
+            if got is not None:
+                pth = got[2]
+                if isinstance(pth, App) and pth.op == "call:os.path.join":
+                    # join(dir, name): the other way round puts the name first (and an absolute directory swallows it)
+                    in_dir = list(pth.args) == [OUT, Const(fname_)]
+                elif isinstance(pth, App) and pth.op == "/":
+                    in_dir = pth.args[1] == Const(fname_) and any(s == OUT for s in subterms(pth.args[0]))
+                else:
+                    in_dir = any(s == OUT for s in subterms(pth))
+            ok = got is not None and _plus_to_cat(got[0]) == want and got[1] == Const(mode) and in_dir
             R.check("C06-D3b CLI file outputs", ok, f"{fname}: {fname_}", mod=fi.module, node=got[3].node if got else fi.node,
                     function=fq, expected=f"{fname_} <- {want!r} (mode {mode!r}) in output_dir",
                     found=f"{got[0]!r} mode {got[1]!r}"[:240] if got else "not written", key_extra=fname_)
@@ -424,6 +434,7 @@ def raw_form_rule(ctx):
     repo = ctx.repo
     S = ctx.schema
     generic.cli_converters(ctx, "C06-D3d CLI converters", "suit_generator.cmd_encrypt", 8)
+    generic.subcommand_dispatch(ctx, "C06-D3e sub-command dispatch", "suit_generator.cmd_encrypt", 2)
     R.rule("C06-D5 raw encryption info accepted unchanged", 4, "file content loses exactly one bstr layer on load and regains exactly one on encode")
     fi = repo.func("suit_generator.suit.security", "SuitEncryptionInfoExt.from_obj")
     ev = Evaluator(repo, inline_depth=0)
